@@ -16,6 +16,8 @@ import (
 	"strings"
 	"time"
 
+	"golang.org/x/tools/go/ssa"
+
 	"xvc/load"
 	"xvc/q"
 	"xvc/rules"
@@ -38,6 +40,7 @@ func main() {
 	verif := flag.String("verif", "/verif", "verif dir (evidence, out, known findings)")
 	dump := flag.String("dump", "", "dump the branch inventory of a function (authoring aid)")
 	explain := flag.String("explain", "", "print a violations file in readable form")
+	effects := flag.String("effects", "", "dump calls of a function with canonical args and guard sets (authoring aid); fn[@calleespec]")
 	list := flag.Bool("v", false, "print every obligation")
 	flag.Parse()
 
@@ -66,6 +69,50 @@ func main() {
 			fail(*verif, *prop, *tier, t0, "load failed: "+err.Error())
 		}
 		os.Exit(1)
+	}
+	if *effects != "" {
+		name, spec := *effects, ""
+		if i := strings.Index(name, "@"); i >= 0 {
+			name, spec = name[:i], name[i+1:]
+		}
+		fn := p.Funcs[name]
+		if fn == nil {
+			fmt.Println("no such function:", name)
+			os.Exit(2)
+		}
+		c := q.NewCtx(p, "dump", *tier)
+		for _, f := range q.WithClosures(fn) {
+			fmt.Println("##", load.QualName(f))
+			for _, b := range f.Blocks {
+				for _, ins := range b.Instrs {
+					ci, ok := ins.(ssa.CallInstruction)
+					if !ok {
+						continue
+					}
+					cal := q.Callee(ci.Common())
+					if cal.Name == "" || (spec != "" && !cal.Match(spec)) {
+						continue
+					}
+					if spec == "" && (strings.HasSuffix(cal.Pkg, "/logs") || cal.Recv == "Logger" || cal.Pkg == "builtin") {
+						continue
+					}
+					var args []string
+					for _, a := range ci.Common().Args {
+						args = append(args, q.CanonD(a, 9))
+					}
+					var gs []string
+					for _, g := range q.GuardsOf(b) {
+						if g.Sense {
+							gs = append(gs, g.Canon)
+						} else {
+							gs = append(gs, "!"+g.Canon)
+						}
+					}
+					fmt.Printf("  %s %s.%s(%s)\n      if %s\n", c.At(ins), cal.Recv, cal.Name, strings.Join(args, " , "), strings.Join(gs, " & "))
+				}
+			}
+		}
+		return
 	}
 	if *dump != "" {
 		c := q.NewCtx(p, "dump", *tier)
